@@ -181,6 +181,14 @@ fn start(cfg: &Cfg, root: &Path, link: Option<&PathBuf>, errfile: &Path) -> Resu
         if let Some(lk) = link {
             l = l.create_symlink(lk.clone());
         }
+        if cfg.addw {
+            // an additional writer "A" (a second file writer in a sibling directory) for brace targets
+            let w = FileLogWriter::builder(FileSpec::default().directory(root.join("addw")).basename("a").suppress_timestamp())
+                .format(fmt_plain)
+                .try_build()
+                .map_err(|e| format!("{e:?}"))?;
+            l = l.add_writer("A", Box::new(w));
+        }
         let (logger, handle) = l.build().map_err(|e| format!("{e:?}"))?;
         let mut r = Run::none();
         r.logger = Some(logger);
@@ -387,6 +395,7 @@ pub fn run_scenario(sc: &Value, ex: &mut Exec) -> usize {
                 }
                 let lvl = level(st.get("lvl").and_then(|v| v.as_str()).unwrap_or("info"));
                 ev["id"] = json!(id);
+                ev["probe"] = json!(st.get("probe").and_then(|v| v.as_bool()).unwrap_or(false));
                 ev["len"] = json!(len.max(le));
                 ev["lvl"] = json!(lvl.as_str().to_lowercase());
                 if !run.active() {
@@ -394,12 +403,23 @@ pub fn run_scenario(sc: &Value, ex: &mut Exec) -> usize {
                 } else {
                     let r = catch_unwind(AssertUnwindSafe(|| {
                         if let Some(l) = &run.logger {
+                            // optional "weird record" parameters (C10): target string, absent optional fields
+                            let target = st.get("target").and_then(|v| v.as_str()).unwrap_or("m");
+                            let nomod = st.get("nomod").and_then(|v| v.as_bool()).unwrap_or(false);
+                            let file = st.get("file").and_then(|v| v.as_str());
+                            let line = st.get("line").and_then(|v| v.as_u64()).map(|x| x as u32);
+                            let md = log::Metadata::builder().level(lvl).target(target).build();
+                            if st.get("query").and_then(|v| v.as_bool()).unwrap_or(false) {
+                                let _ = l.enabled(&md);
+                            }
                             l.log(
                                 &log::Record::builder()
                                     .args(format_args!("{}", msg))
                                     .level(lvl)
-                                    .target("m")
-                                    .module_path(Some("m"))
+                                    .target(target)
+                                    .module_path(if nomod { None } else { Some("m") })
+                                    .file(file)
+                                    .line(line)
                                     .build(),
                             );
                         } else if let Some(a) = &run.arc {
@@ -677,8 +697,18 @@ pub fn run_scenario(sc: &Value, ex: &mut Exec) -> usize {
                 ev["name"] = json!(nm);
                 if st.get("dir").and_then(|v| v.as_bool()).unwrap_or(false) {
                     std::fs::create_dir_all(dir.join(nm)).ok();
+                } else if let Some(t) = st.get("symlink").and_then(|v| v.as_str()) {
+                    std::os::unix::fs::symlink(t, dir.join(nm)).ok();
                 } else {
-                    std::fs::write(dir.join(nm), content).ok();
+                    let rep = st.get("repeat").and_then(|v| v.as_u64()).unwrap_or(1) as usize;
+                    let body = content.repeat(rep);
+                    if st.get("gz").and_then(|v| v.as_bool()).unwrap_or(false) {
+                        let mut enc = flate2::write::GzEncoder::new(Vec::new(), flate2::Compression::fast());
+                        enc.write_all(body.as_bytes()).ok();
+                        std::fs::write(dir.join(nm), enc.finish().unwrap_or_default()).ok();
+                    } else {
+                        std::fs::write(dir.join(nm), body).ok();
+                    }
                 }
                 "ok".into()
             }
@@ -763,6 +793,17 @@ pub fn run_scenario(sc: &Value, ex: &mut Exec) -> usize {
                 "ok".into()
             }
             "Nop" => "ok".into(),
+            "ParseNew" => {
+                let txt = st["spec"].as_str().unwrap_or("").to_string();
+                match &run.handle {
+                    Some(hd) => match catch_unwind(AssertUnwindSafe(|| hd.parse_new_spec(&txt))) {
+                        Ok(Ok(())) => "ok".into(),
+                        Ok(Err(_)) => "err:parse".into(),
+                        Err(e) => format!("panic:{}", panic_msg(e)),
+                    },
+                    None => "noop".into(),
+                }
+            }
             "FromPath" => {
                 // FileSpec::try_from(path) -> logger -> one record -> shutdown; then list everything below root
                 let raw_path = st["path"].as_str().unwrap_or("x.log").to_string();
@@ -883,7 +924,8 @@ pub fn run_scenario(sc: &Value, ex: &mut Exec) -> usize {
                 .collect::<Vec<_>>());
             let curf = current_file(&dir, &cfg).unwrap_or_default();
             // anything the logger created outside the configured directories
-            let mut known: Vec<String> = vec![cfg.subdir.clone(), "moved".into(), "link_to_current".into()];
+            let mut known: Vec<String> =
+                vec![cfg.subdir.clone(), "moved".into(), "link_to_current".into(), "addw".into()];
             known.extend(old_fams.iter().map(|(_, c)| c.subdir.clone()));
             let mut outside: Vec<String> = std::fs::read_dir(&root)
                 .map(|rd| {
